@@ -428,6 +428,10 @@ func Run(r *vh.Run) {
 			RunTree(r, trng, fmt.Sprintf("tree%d/shorter-heavier", i), t, sh)
 		}
 	}
+	// managers with a configured order of expiring contracts
+	for i := 0; i < r.Pick(3, 30); i++ {
+		runContractOrder(r, rng.Fork(), fmt.Sprintf("order%d", i))
+	}
 	r.Assume("Merkle proof values are checked by the oracle (core's accumulator) only; the model carries ids")
 	r.Assume("concurrent polls are validated per answer (contiguity, bound) and by the final ledger; which interleavings occur is up to the Go scheduler")
 }
